@@ -109,6 +109,9 @@ def plan(tier, seed, args):
             "debug_numint": (8, 5, 8, 8),
             "plan_coefs": (16, 5, 16, 8),
             "e2e": (8, 2, 3, 2),
+            "vxc_numint": (6, 5, 4, 6),
+            "pbc_helpers": (8, 5, 6, 6),
+            "atc_misc": (8, 5, 6, 6),
         }
     else:
         table = {
@@ -119,6 +122,9 @@ def plan(tier, seed, args):
             "debug_numint": (60, 8, 50, 6),
             "plan_coefs": (120, 8, 80, 6),
             "e2e": (60, 3, 12, 2),
+            "vxc_numint": (40, 8, 40, 8),
+            "pbc_helpers": (60, 8, 60, 8),
+            "atc_misc": (60, 8, 60, 8),
         }
     if args.cases is not None:
         table = {k: (args.cases, v[1], max(1, args.cases // 2), v[3]) for k, v in table.items()}
@@ -134,7 +140,10 @@ def plan(tier, seed, args):
                 if variant == "simtrace" and wl == "e2e":
                     for s in scheds:
                         s["window_pct"] = min(s["window_pct"], 10)
-                cases.append({"workload": wl, "wparams": wp, "scheds": scheds, "group": variant})
+                c = {"workload": wl, "wparams": wp, "scheds": scheds, "group": variant}
+                if wl != "e2e" and i % 4 == 0:
+                    c["verify_replay"] = True
+                cases.append(c)
     # long cases first
     order = {"e2e": 0, "nldf_gen": 1, "nldf_grad": 2}
     cases.sort(key=lambda c: order.get(c["workload"], 5))
@@ -238,8 +247,22 @@ def run_case(spec):
     sample = None
     for sched in spec["scheds"]:
         replay = spec.get("replay_trace")
-        out, st, exc, tr = run_workload(wl, wp, sched, record=bool(spec.get("record")), replay=replay)
+        want_rec = bool(spec.get("record")) or bool(spec.get("verify_replay"))
+        out, st, exc, tr = run_workload(wl, wp, sched, record=want_rec, replay=replay)
         stats["sched_runs"] += 1
+        if spec.get("verify_replay") and tr is not None and not tr["overflow"] and len(tr["segs"]) <= 300000 and exc is None and not st["error"]:
+            # replay fidelity: following the recorded schedule trace (not the PRNG) must
+            # reproduce the execution exactly
+            out_r, st_r, exc_r, _ = run_workload(wl, wp, sched, record=False, replay=tr)
+            same = exc_r is None and st_r["replay_diverged"] == 0 and st_r["steps"] == st["steps"] and st_r["switches"] == st["switches"]
+            if same:
+                for kk in out:
+                    if np.asarray(out[kk]).tobytes() != np.asarray(out_r[kk]).tobytes():
+                        same = False
+            if not same:
+                return {"harness_error": "schedule-trace replay did not reproduce the recorded execution for %s sched=%s (diverged=%s steps %s/%s)" % (wl, json.dumps(sched), st_r.get("replay_diverged"), st_r.get("steps"), st.get("steps"))}
+            stats["trace_replays_verified"] += 1
+            stats["trace_segments_replayed"] += len(tr["segs"])
         stats["strategy_" + sched["strategy"]] += 1
         stats["team_%d" % sched["nthreads"]] += 1
         for f in ("regions", "regions_multi", "steps", "accesses", "switches", "preemptions", "barriers", "chunks", "chunk_shuffles", "criticals", "crit_waits", "singles", "mallocs", "poisoned_bytes", "atomics", "starved_regions"):
@@ -429,6 +452,8 @@ def coverage(done, tier):
         "team_size_histogram": teams,
         "strategy_histogram": strats,
         "schedule_runs_by_workload": dict(wl_runs),
+        "trace_replays_verified": int(tot["trace_replays_verified"]),
+        "trace_segments_replayed": int(tot["trace_segments_replayed"]),
         "distinct_interleavings": len(hashes),
         "distinct_interleavings_measure": "distinct 64-bit hashes of (schedule trace incl. team sizes, segment lengths, chunk grants) + outputs per case",
         "regions_total": len(all_regions),
